@@ -3,6 +3,7 @@ package chainsim
 import (
 	"encoding/json"
 	"fmt"
+	"github.com/meshplus/bitxhub-core/governance"
 
 	"github.com/bytecodealliance/wasmtime-go"
 	"github.com/meshplus/bitxhub-kit/types"
@@ -51,18 +52,22 @@ func ruleAccepts(rule string, proof []byte) bool {
 // relay hub: validators of the other BitXHub
 func relayValidator(i int) *Key { return keyFor(fmt.Sprintf("relay-validator-%d", i)) }
 
-func relayTrustRoot(n int) []byte {
+func relayTrustRoot(n int) []byte { return relayTrustRootOf(0, n) }
+
+// relayTrustRootOf: validators first..first+n-1
+func relayTrustRootOf(first, n int) []byte {
 	var addrs []string
-	for i := 0; i < n; i++ {
+	for i := first; i < first+n; i++ {
 		addrs = append(addrs, relayValidator(i).Addr.String())
 	}
 	b, _ := json.Marshal(map[string][]string{"addresses": addrs})
 	return b
 }
 
-// relayProof signs (ibtp, status) with the listed signer indexes; index >= 100 means a key that
-// is not a registered validator. Returns the proof and the number of distinct registered signers.
-func relayProof(ib *pb.IBTP, status pb.TransactionStatus, signers []int, n int) ([]byte, int) {
+// relayProof signs (ibtp, status) with the listed signer indexes; registered tells which validator indexes
+// are in the trust root currently stored for the other BitXHub. Returns the proof and the number of
+// distinct registered signers.
+func relayProof(ib *pb.IBTP, status pb.TransactionStatus, signers []int, registered map[int]bool) ([]byte, int) {
 	hash, err := utils.EncodePackedAndHash(ib, status)
 	if err != nil {
 		panic(err)
@@ -77,13 +82,82 @@ func relayProof(ib *pb.IBTP, status pb.TransactionStatus, signers []int, n int) 
 			panic(err)
 		}
 		bp.MultiSign = append(bp.MultiSign, sig)
-		if si < n && !seen[si] {
+		if registered[si] && !seen[si] {
 			seen[si] = true
 			distinct++
 		}
 	}
 	b, _ := bp.Marshal()
 	return b, distinct
+}
+
+// observeRelaySet reads the trust root currently stored for the other BitXHub (after every block).
+func (s *scn) observeRelaySet() {
+	if s.cfg.Relay <= 0 {
+		return
+	}
+	rcs := s.reps[0].viewCall(viewTx(s.users[0], constant.AppchainMgrContractAddr, "GetAppchain", pb.String(relayHubID)))
+	if len(rcs) != 1 || rcs[0] == nil || rcs[0].Status != pb.Receipt_SUCCESS {
+		return
+	}
+	var ac struct {
+		TrustRoot []byte `json:"trust_root"`
+	}
+	var tr struct {
+		Addresses []string `json:"addresses"`
+	}
+	if json.Unmarshal(rcs[0].Ret, &ac) != nil {
+		return
+	}
+	if json.Unmarshal(ac.TrustRoot, &tr) != nil {
+		// the stored trust root is not a validator list: nobody is a registered validator, no proof can be valid
+		if s.relayN != 0 {
+			s.res.Count("probe_relay_trust_root_unreadable")
+		}
+		s.relaySet, s.relayN = map[int]bool{}, 0
+		return
+	}
+	set := map[int]bool{}
+	for _, a := range tr.Addresses {
+		for i := 0; i < 24; i++ {
+			if relayValidator(i).Addr.String() == a {
+				set[i] = true
+			}
+		}
+	}
+	if len(s.relaySet) != 0 && fmt.Sprint(set) != fmt.Sprint(s.relaySet) {
+		s.res.Count("probe_relay_trust_root_changed")
+	}
+	s.relaySet, s.relayN = set, len(tr.Addresses)
+}
+
+// applyRelayTrust replaces the validator set of the other BitXHub through governance (UpdateAppchain + votes).
+func (s *scn) applyRelayTrust(st CStep) {
+	if s.cfg.Relay <= 0 {
+		return
+	}
+	ra := keyFor("relay-admin")
+	n := []int{1, 3, 4, 7}[st.N%4]
+	first := []int{0, 1, 2, 4, 7}[st.A%5]
+	s.flush()
+	s.add(s.b.bvm(ra, constant.AppchainMgrContractAddr, "UpdateAppchain", pb.String(relayHubID), pb.String("name-relay"), pb.String("desc"), pb.Bytes(relayTrustRootOf(first, n)),
+		pb.String(ra.Addr.String()), pb.String("reason")), &txMeta{kind: "gov", sender: ra, note: fmt.Sprintf("relay-trust-root first=%d n=%d", first, n), target: relayHubID})
+	rs := s.flush()
+	if rs == nil || len(rs.Receipts) == 0 {
+		return
+	}
+	rc := rs.Receipts[len(rs.Receipts)-1]
+	s.logf("%d relaytrust first=%d n=%d -> %v %q", s.step, first, n, rc.Status, rc.Ret)
+	g := &governance.GovernanceResult{}
+	if rc.Status != pb.Receipt_SUCCESS || json.Unmarshal(rc.Ret, g) != nil || g.ProposalID == "" {
+		return
+	}
+	w := s.cfg.World
+	for i := 0; i < w.Admins; i++ {
+		k := w.adminKey(i)
+		s.add(s.b.bvm(k, constant.GovernanceContractAddr, "Vote", pb.String(g.ProposalID), pb.String("approve"), pb.String("r")), &txMeta{kind: "vote", sender: k, note: "approve", target: g.ProposalID})
+	}
+	s.flush()
 }
 
 func (s *scn) deployBitRule() *types.Address {
